@@ -200,6 +200,11 @@ def run(ctx):
 
     st = collections.Counter()
     hist = collections.defaultdict(collections.Counter)
+    ALLV = ("beforefix", "kf12", "kf13", "kf12+kf13")
+    CURRENT = "kf12+kf13"            # the variant `gridWrapAssign` models: the function as it is in /repo
+    not_current = []
+    explained_by = set(ALLV)           # the variants of the model that explain EVERY run
+    distinguishing = 0
     distinct, nontrivial, samples = set(), set(), []
     pts = imgs = 0
     planted = {}
@@ -225,6 +230,14 @@ def run(ctx):
             hist["entry_state"][{"0": "as_built", "1": "generators_minimized", "2": "congruences_minimized"}.get(par["variant"], "?")] += 1
             hist["argument_built_from"]["grid_generators" if "G" in desc.split()[2:] else "congruences"] += 1
             hist["argument_generator_kinds"][par.get("arg_kinds", "") or ("empty" if par.get("arg_empty") else "?")] += 1
+        if v[0] in ("ok", "MISMATCH", "THROWS") and kv.get("variants"):
+            vs = set(kv["variants"].split(","))
+            explained_by &= vs
+            if CURRENT not in vs:
+                not_current.append((desc, kv["variants"]))
+            if vs != set(ALLV):
+                distinguishing += 1
+                hist["runs_distinguishing_the_variants"][kv["variants"]] += 1
         if v[0] in ("ok", "MISMATCH", "THROWS"):
             hist["outcome"][kv.get("out", "exception" if v[0] == "THROWS" else "ok")] += 1
             for b in kv.get("tags", "").split(","):
@@ -251,11 +264,26 @@ def run(ctx):
                 msg = "note: the witness of %s no longer fails on this tree (entry is stale / defect repaired)" % f["id"]
                 print(msg, flush=True); ctx.notes.append(msg)
 
+    # which variant of the function does the library implement?  (each run is explained by a set of variants)
+    if not explained_by and not st["DIVERGE"]:
+        ctx.violation("every run of Grid::wrap_assign is explained by some variant of the model (repairs of KF-C17-12 / KF-C17-13 "
+                      "applied or not), but no single variant explains all of them", {"counts": dict(st)}, found_input=False,
+                      record={"site": "gridwrap-model", "tags": []})
+    measured = sorted(explained_by, key=ALLV.index)
+    if not_current:
+        # the real function is another variant than the one `gridWrapAssign` models: the theorems stated for the current
+        # function do not cover these runs (a regression of 3a4d83e / 4614ba1, or a new repair the model has to follow)
+        ctx.violation("Grid::wrap_assign is not the function the model `gridWrapAssign` (variant kf12+kf13) transliterates on %d runs; "
+                      "variant(s) explaining every run: %s; first: %s [%s]" % (len(not_current), measured or "none", not_current[0][0][:300], not_current[0][1]),
+                      {"description": not_current[0][0], "gridwrap": True, "variants": not_current[0][1], "runs": len(not_current),
+                       "variants_explaining_every_run": measured}, found_input=False, record={"site": "gridwrap-model", "tags": []})
+
     judged = st["ok"] + st["MISMATCH"] + st["THROWS"] + st["DIVERGE"]
     ctx.cov["grid_wrap_assign"] = {
         "cases_compared_model_vs_real": judged, "distinct_cases": len(distinct), "distinct_nontrivial": len(nontrivial),
         "rule": "distinct = hash of the case description; non-trivial = normal return with a non-empty result and at least one "
                 "sample integer point of the argument whose images were tested, or a failing case; planted witnesses (gp*) excluded",
+        "variants_of_the_model_explaining_every_run": measured, "runs_distinguishing_the_variants": distinguishing,
         "verdicts": dict(st), "sample_points": pts, "images_tested_in_real_result": imgs,
         "histograms": {k: dict(v) for k, v in hist.items() if sum(v.values())}, "samples": samples,
     }
